@@ -117,6 +117,9 @@ class Simulation:
 
         # Pre-run scheduled events — replayed on reset()
         self._pre_run_event_specs: list[tuple[Instant, str, object, bool, dict]] = []
+        # Specs not yet frozen, paired with the live event they describe
+        self._pre_run_pending: list[tuple[Event, tuple[Instant, str, object, bool, dict]]] = []
+        self._pre_run_spec_cancelled: list[bool] = []
 
         # Control surface — lazy-created on first access
         self._control = None
@@ -210,13 +213,30 @@ class Simulation:
         items = events if isinstance(events, list) else [events]
         for e in items:
             meta = e.context.get("metadata", {}) if e.context else {}
-            self._pre_run_event_specs.append(
-                (e.time, e.event_type, e.target, e.daemon, dict(meta))
+            self._pre_run_pending.append(
+                (e, (e.time, e.event_type, e.target, e.daemon, dict(meta)))
             )
+
+    def _freeze_pre_run_specs(self) -> None:
+        """Fix the replay list once the run starts.
+
+        Specs are kept in the creation order of the events they describe (the
+        order that breaks same-instant ties) and events cancelled before the
+        run are remembered as cancelled, so reset() + run() repeats the
+        original deliveries.
+        """
+        pending = sorted(self._pre_run_pending, key=lambda item: item[0]._sort_index)
+        for event, spec in pending:
+            self._pre_run_event_specs.append(spec)
+            self._pre_run_spec_cancelled.append(event._cancelled)
+        self._pre_run_pending.clear()
 
     def _replay_pre_run_events(self) -> None:
         """Recreate and push all events that were scheduled before the first run."""
-        for time, event_type, target, daemon, meta in self._pre_run_event_specs:
+        self._freeze_pre_run_specs()
+        for (time, event_type, target, daemon, meta), was_cancelled in zip(
+            self._pre_run_event_specs, self._pre_run_spec_cancelled, strict=True
+        ):
             ctx = {"metadata": dict(meta)} if meta else None
             fresh = Event(
                 time=time,
@@ -225,6 +245,8 @@ class Simulation:
                 daemon=daemon,
                 context=ctx,
             )
+            if was_cancelled:
+                fresh.cancel()
             self._event_heap.push(fresh)
 
     def run(self) -> SimulationSummary:
@@ -259,6 +281,7 @@ class Simulation:
             self._is_running = True
             self._event_heap.set_current_time(self._current_time)
             self._event_heap.continue_counter_after_pending()
+            self._freeze_pre_run_specs()
 
             logger.info(
                 "Simulation starting at %r with %d event(s) in heap",
